@@ -18,6 +18,7 @@ import ast
 import re
 from typing import Any, List, Set, Tuple
 
+from engine.srcmatch import U
 from engine.effects import borrowed_names, mutations
 from engine.kvtext import conversion_of, emits_in
 from engine.model import AnalysisError, Program, call_name, dotted, names_in, walk_no_nested
@@ -86,7 +87,7 @@ def escape_status(node: ast.AST, defs: dict, fn: ast.AST, mod: Any, depth: int =
         hname = node.func.id if isinstance(node.func, ast.Name) else None
         if hname and mod.has_func(hname) and len(node.args) == 1:
             return helper_status(mod.func(hname), mod)
-        return 'unknown', f'call `{ast.unparse(node.func)}` is not escape_text'
+        return 'unknown', f'call `{U(node.func)}` is not escape_text'
     if isinstance(node, ast.Subscript) and isinstance(node.value, ast.Name):
         return memo_status(node, fn, defs, mod, depth)
     if isinstance(node, ast.Name) and node.id in defs:
@@ -100,7 +101,7 @@ def escape_status(node: ast.AST, defs: dict, fn: ast.AST, mod: Any, depth: int =
         return worst
     if _derives_from_content(node):
         return 'bad', 'tree content written as it is'
-    return 'unknown', f'`{ast.unparse(node)[:40]}` not understood'
+    return 'unknown', f'`{U(node)[:40]}` not understood'
 
 
 def helper_status(h: ast.AST, mod: Any) -> Tuple[str, str]:
@@ -128,7 +129,7 @@ def helper_status(h: ast.AST, mod: Any) -> Tuple[str, str]:
                     if isinstance(pv, ast.Call) and dotted(pv.func) in ('re.compile', 'compile') and pv.args and isinstance(pv.args[0], ast.Constant):
                         pat = pv.args[0].value
             if pat is None:
-                return 'unknown', f'fast path test `{ast.unparse(par.test)[:50]}` of {h.name}() not understood'      # type: ignore[attr-defined]
+                return 'unknown', f'fast path test `{U(par.test)[:50]}` of {h.name}() not understood'      # type: ignore[attr-defined]
             try:
                 rx = re.compile(pat)
             except re.error:
@@ -138,7 +139,7 @@ def helper_status(h: ast.AST, mod: Any) -> Tuple[str, str]:
                 return 'bad', (f'{h.name}() returns text unescaped when it matches `{pat}`, and that pattern accepts {hit[0]!r}: the character is written raw '      # type: ignore[attr-defined]
                                '(a raw CR inside quotes is read back as LF, a quote ends the string)')
             continue
-        return 'unknown', f'{h.name}() returns `{ast.unparse(v)[:40]}`'        # type: ignore[attr-defined]
+        return 'unknown', f'{h.name}() returns `{U(v)[:40]}`'        # type: ignore[attr-defined]
     return 'ok', ''
 
 
@@ -150,9 +151,9 @@ def memo_status(sub: ast.Subscript, fn: ast.AST, defs: dict, mod: Any, depth: in
         return 'unknown', f'table `{tbl}` is filled elsewhere'
     for t, v in stores:
         if not (isinstance(v, ast.Call) and conversion_of(v)[0] == 'escape_text' and v.args):
-            return 'unknown', f'`{tbl}` also holds `{ast.unparse(v)[:40]}`'
-        if ast.unparse(t.slice) != ast.unparse(v.args[0]) or ast.unparse(sub.slice) != ast.unparse(t.slice):
-            return 'bad', (f'the table `{tbl}` is keyed by `{ast.unparse(t.slice)}` but holds the escaped form of `{ast.unparse(v.args[0])}`: two different strings with the same key '
+            return 'unknown', f'`{tbl}` also holds `{U(v)[:40]}`'
+        if U(t.slice) != U(v.args[0]) or U(sub.slice) != U(t.slice):
+            return 'bad', (f'the table `{tbl}` is keyed by `{U(t.slice)}` but holds the escaped form of `{U(v.args[0])}`: two different strings with the same key '
                            '(names differing only in case) are written with the spelling of the first')
     return 'ok', ''
 
@@ -202,7 +203,7 @@ def run(ctx: Any, prog: Program) -> None:
                 if _derives_from_content(test) or (set(names_in(test)) & content_locals):
                     if isinstance(n, ast.Assert):
                         continue
-                    src = ast.unparse(test)
+                    src = U(test)
                     ctx.check('C01.R6', src in STRUCTURAL_TESTS, kv, n if isinstance(n, ast.stmt) else kv.parents.get(n, n),
                               f'the writer branches on tree content through `{src}`: the emitted token stream then depends on the value of a name/value, '
                               'not only on the node kind (block/leaf/root)', text='content test ' + src)
@@ -223,15 +224,15 @@ def run(ctx: Any, prog: Program) -> None:
                     if content:
                         status, why = escape_status(s.node, defs, fn, kv)
                         if status == 'unknown':
-                            ctx.shape('C01.R1', False, kv, s.emit, f'`{ast.unparse(s.node)}` in {s.position} position: {why}', text=f'{s.position} slot {ast.unparse(s.node)}')
+                            ctx.shape('C01.R1', False, kv, s.emit, f'`{U(s.node)}` in {s.position} position: {why}', text=f'{s.position} slot {U(s.node)}')
                         else:
                             ctx.check('C01.R1', status == 'ok', kv, s.emit,
-                                      f'`{ast.unparse(s.node)}` is written inside quotes in {s.position} position: {why or "escaped"}' + ('' if status == 'ok' else
+                                      f'`{U(s.node)}` is written inside quotes in {s.position} position: {why or "escaped"}' + ('' if status == 'ok' else
                                       '; a quote or backslash in it ends the token early / is decoded as an escape by the reader' if why == 'tree content written as it is' else ''),
-                                      text=f'{s.position} slot {ast.unparse(s.node)}')
+                                      text=f'{s.position} slot {U(s.node)}')
                     ctx.check('C01.R2', not uses_indent, kv, s.emit,
-                              f'indentation option `{ast.unparse(s.node)}` is written inside a quoted string: the token stream would depend on it',
-                              text=f'quoted slot {ast.unparse(s.node)} indent-free')
+                              f'indentation option `{U(s.node)}` is written inside a quoted string: the token stream would depend on it',
+                              text=f'quoted slot {U(s.node)} indent-free')
                     if not content and not uses_indent:
                         # a slot unpacked from `escape_text(<several content strings joined by SEP>).partition/split(SEP)`: the separator is an
                         # ordinary character a name may contain, so the pieces are cut in the wrong place
@@ -243,21 +244,21 @@ def run(ctx: Any, prog: Program) -> None:
                                         and _derives_from_content(a.value.func.value):
                                     split_def = a
                         if split_def is not None:
-                            ctx.check('C01.R1', False, kv, split_def, f'`{ast.unparse(split_def)[:90]}`: name and value are escaped as one string and separated again on `{ast.unparse(split_def.value.args[0]) if split_def.value.args else "whitespace"}`, '
-                                      'a character that escape_text leaves alone and that a name may contain itself - such a name is cut in the wrong place', text=f'{s.position} slot {ast.unparse(s.node)} recovered by splitting')
+                            ctx.check('C01.R1', False, kv, split_def, f'`{U(split_def)[:90]}`: name and value are escaped as one string and separated again on `{U(split_def.value.args[0]) if split_def.value.args else "whitespace"}`, '
+                                      'a character that escape_text leaves alone and that a name may contain itself - such a name is cut in the wrong place', text=f'{s.position} slot {U(s.node)} recovered by splitting')
                             continue
-                        raise AnalysisError(f'{qual}:{em.node.lineno}: quoted slot `{ast.unparse(s.node)}` is neither tree content nor an indentation option')
+                        raise AnalysisError(f'{qual}:{em.node.lineno}: quoted slot `{U(s.node)}` is neither tree content nor an indentation option')
                 else:
                     ctx.check('C01.R2', not content, kv, s.emit,
-                              f'tree content `{ast.unparse(s.node)}` is written outside quotes', text=f'bare slot {ast.unparse(s.node)}')
+                              f'tree content `{U(s.node)}` is written outside quotes', text=f'bare slot {U(s.node)}')
                     if not content and not uses_indent:
-                        raise AnalysisError(f'{qual}:{em.node.lineno}: bare slot `{ast.unparse(s.node)}` is not an indentation option')
+                        raise AnalysisError(f'{qual}:{em.node.lineno}: bare slot `{U(s.node)}` is not an indentation option')
         # no branch on indentation options
         for n in walk_no_nested(fn):
             if isinstance(n, (ast.If, ast.IfExp, ast.While)):
                 used = set(names_in(n.test)) & derived
                 ctx.check('C01.R2', not used, kv, n, f'branch tests indentation option(s) {sorted(used)}: output shape may depend on them',
-                          text='branch ' + ast.unparse(n.test))
+                          text='branch ' + U(n.test))
         # literals outside quotes never contain '[' (PROP_FLAG) - needed by R5
         for em in emits:
             for ln in em.lines:
@@ -280,8 +281,8 @@ def run(ctx: Any, prog: Program) -> None:
                           f'each child must be written exactly once by recursion into {fn.name}; calls on the child: {body_calls}',
                           text=f'for child in self._value -> {body_calls}')
             elif _derives_from_content(it):
-                ctx.check('C01.R5', False, kv, it, f'children iterated through `{ast.unparse(it)}` instead of self._value in list order',
-                          text='iteration ' + ast.unparse(it))
+                ctx.check('C01.R5', False, kv, it, f'children iterated through `{U(it)}` instead of self._value in list order',
+                          text='iteration ' + U(it))
     # ---- R3 ------------------------------------------------------------------------------------
     for qual in ('Keyvalues.serialise', 'Keyvalues._serialise', 'Keyvalues.export', 'Keyvalues.__str__'):
         fn = kv.func(qual)
@@ -342,7 +343,7 @@ def run(ctx: Any, prog: Program) -> None:
         if isinstance(n, ast.Assign) and isinstance(n.value, ast.Call) and dotted(n.value.func) in ('tokenizer', 'next', 'tokenizer.__call__') and isinstance(n.targets[0], ast.Tuple) and len(n.targets[0].elts) == 2 \
                 and isinstance(n.targets[0].elts[1], ast.Name):
             content_vars.add(n.targets[0].elts[1].id)
-        if isinstance(n, ast.For) and isinstance(n.target, ast.Tuple) and len(n.target.elts) == 2 and isinstance(n.target.elts[1], ast.Name) and 'tokenizer' in ast.unparse(n.iter):
+        if isinstance(n, ast.For) and isinstance(n.target, ast.Tuple) and len(n.target.elts) == 2 and isinstance(n.target.elts[1], ast.Name) and 'tokenizer' in U(n.iter):
             content_vars.add(n.target.elts[1].id)
     if not content_vars:
         raise AnalysisError('Keyvalues.parse: token value variables not found')
@@ -368,10 +369,10 @@ def run(ctx: Any, prog: Program) -> None:
                 continue
             calls = {c.func.attr for c in ast.walk(a) if isinstance(c, ast.Call) and isinstance(c.func, ast.Attribute)} | {dotted(c.func) or '' for c in ast.walk(a) if isinstance(c, ast.Call)}
             if calls & BROAD or any((c or '').startswith('re.') for c in calls):
-                ctx.check('C01.R7', False, kv, a, f'parse refuses a string when `{ast.unparse(a)[:70]}`: that is broader than a literal LF/CR (e.g. str.splitlines also breaks on \\v, \\f, \\x1c-\\x1e, NEL, '
-                          'U+2028/9), so text that serialise() writes is rejected', text=f'content rejection `{ast.unparse(a)[:50]}`')
+                ctx.check('C01.R7', False, kv, a, f'parse refuses a string when `{U(a)[:70]}`: that is broader than a literal LF/CR (e.g. str.splitlines also breaks on \\v, \\f, \\x1c-\\x1e, NEL, '
+                          'U+2028/9), so text that serialise() writes is rejected', text=f'content rejection `{U(a)[:50]}`')
             else:
-                ctx.shape('C01.R7', False, kv, a, f'content rejection test `{ast.unparse(a)[:70]}` is not an enumerated form', text=f'content rejection `{ast.unparse(a)[:50]}`')
+                ctx.shape('C01.R7', False, kv, a, f'content rejection test `{U(a)[:70]}` is not an enumerated form', text=f'content rejection `{U(a)[:50]}`')
     # ... and it never silently stops or skips on what a string contains: every character can occur in a name the writer produced
     for n in walk_no_nested(parse):
         if not (isinstance(n, ast.If) and n.body and isinstance(n.body[-1], (ast.Break, ast.Continue, ast.Return))):
@@ -380,8 +381,8 @@ def run(ctx: Any, prog: Program) -> None:
                 [x for x in ast.walk(n.test) if isinstance(x, ast.Compare) and isinstance(x.ops[0], (ast.In, ast.NotIn)) and isinstance(x.comparators[0], ast.Name) and x.comparators[0].id in content_vars] + \
                 [x for x in ast.walk(n.test) if isinstance(x, ast.Subscript) and isinstance(x.value, ast.Name) and x.value.id in content_vars]
         for lk in looks:
-            ctx.check('C01.R7', False, kv, lk, f'parse leaves the token loop ({type(n.body[-1]).__name__.lower()}) when `{ast.unparse(n.test)[:70]}`: a name or value with that content is produced by serialise() '
-                      'like any other, and everything after it is silently dropped', text=f'content-dependent {type(n.body[-1]).__name__.lower()} `{ast.unparse(lk)[:40]}`')
+            ctx.check('C01.R7', False, kv, lk, f'parse leaves the token loop ({type(n.body[-1]).__name__.lower()}) when `{U(n.test)[:70]}`: a name or value with that content is produced by serialise() '
+                      'like any other, and everything after it is silently dropped', text=f'content-dependent {type(n.body[-1]).__name__.lower()} `{U(lk)[:40]}`')
     if n_rej < 4:
         raise AnalysisError(f'Keyvalues.parse: only {n_rej} content rejection tests found (4 confirmed by hand: LF and CR, for names and for values)')
 
